@@ -111,8 +111,8 @@ static void row_get(int i, const char* src) {
   vf_row_end();
 }
 static void row_op_val(const char* op, int i, long arg, int hasarg) {
-  /* after a mutating operation: log the table entry read back with mi_option_get */
-  long v = mi_option_get((mi_option_t)i);
+  /* after a mutating operation: the raw table entry (no mi_option_get: reading must not initialise the option) */
+  long v = options[i].value;
   vf_logf("{\"k\":\"op\",\"op\":\"%s\",\"i\":%d,\"opt\":\"%s\",", op, i + 1, vf_pristine[i].name);
   vf_log_long("arg", hasarg ? arg : 0);
   vf_log_raw(",", 1);
@@ -134,6 +134,13 @@ static void run_script(const char* path) {
     vf_ctx = "script";
     if (!strcmp(op, "get")) { sscanf(line, "%*s %d", &i); row_get(i, "script"); }
     else if (!strcmp(op, "getall")) { for (i = 0; i < _mi_option_last; i++) row_get(i, "script"); }
+    else if (!strcmp(op, "dump")) {          /* raw table, no side effects */
+      for (i = 0; i < _mi_option_last; i++) {
+        vf_logf("{\"k\":\"tab\",\"i\":%d,\"opt\":\"%s\",", i + 1, vf_pristine[i].name);
+        vf_log_long("val", options[i].value);
+        vf_logf(",\"init\":%d}", (int)options[i].init); vf_row_end();
+      }
+    }
     else if (!strcmp(op, "set")) { sscanf(line, "%*s %d %lld", &i, &a); vf_ctx_a = i; mi_option_set((mi_option_t)i, (long)a); row_op_val("set", i, (long)a, 1); }
     else if (!strcmp(op, "setdef")) { sscanf(line, "%*s %d %lld", &i, &a); vf_ctx_a = i; mi_option_set_default((mi_option_t)i, (long)a); row_op_val("setdef", i, (long)a, 1); }
     else if (!strcmp(op, "enable")) { sscanf(line, "%*s %d", &i); mi_option_enable((mi_option_t)i); row_op_val("enable", i, 0, 0); }
@@ -180,6 +187,7 @@ static void run_script(const char* path) {
 }
 
 static void chunk_cb(const char* msg, void* arg);
+static const char* vf_via;
 
 static int mode_env(const char* script, const char* src) {
   vf_logf("{\"k\":\"start\",\"build\":\"%s\",\"nopts\":%d,\"snap_ok\":%s,", VF_CFG, (int)_mi_option_last,
@@ -194,7 +202,9 @@ static int mode_env(const char* script, const char* src) {
   /* the allocator initialised every option from the environment when the process was loaded (_mi_options_init) */
   vf_logf("{\"k\":\"loaded\"}"); vf_row_end();
   /* messages produced during load (verbose option dump, warnings about invalid values) sit in the delayed output buffer */
-  mi_register_output(chunk_cb, (void*)"delayed");
+  vf_via = "delayed";
+  mi_register_output(chunk_cb, NULL);
+  vf_via = "registered";
   mi_register_output(NULL, NULL);
   for (int i = 0; i < _mi_option_last; i++) row_get(i, src);
   if (script) run_script(script);
@@ -229,8 +239,9 @@ static int gb_under(const char* b) {
 /* ------------------------------------------------------------------ output callback: one row per chunk */
 static long chunk_seq = 0;
 #define CHUNK_CAP 65536
+static const char* vf_via = "registered";   /* which call produced the chunk, when the callback is the registered default */
 static void chunk_cb(const char* msg, void* arg) {
-  const char* via = (const char*)arg;
+  const char* via = (arg != NULL ? (const char*)arg : vf_via);
   if (msg == NULL) { vf_logf("{\"k\":\"chunk\",\"via\":\"%s\",\"n\":%ld,\"null\":true,\"len\":0,\"terminated\":true}", via ? via : "?", chunk_seq++); vf_row_end(); return; }
   size_t l = strnlen(msg, CHUNK_CAP);
   vf_logf("{\"k\":\"chunk\",\"via\":\"%s\",\"n\":%ld,\"null\":false,\"len\":%zu,\"terminated\":%s}", via ? via : "?", chunk_seq++, l, l < CHUNK_CAP ? "true" : "false");
@@ -294,14 +305,15 @@ static int mode_print(int poke) {
   vf_ctx = "delay";
   static char s400[401]; memset(s400, 'd', 400); s400[400] = 0;
   for (int k = 0; k < 120; k++) { vf_ctx_a = k; _mi_message("%s %d\n", s400, k); }   /* "%s %d\n" is not a source format; plain use of the message path */
-  mi_register_output(chunk_cb, (void*)"delayed");
+  vf_via = "delayed";
+  mi_register_output(chunk_cb, NULL);          /* flushes the delayed buffer through the callback */
+  vf_via = "registered";
   /* 2. statistics through an explicit output function and through the registered one */
   make_stats(poke ? 2 : 0);
   vf_ctx = "stats_print_out";
   mi_stats_print_out(chunk_cb, (void*)"stats_print_out");
   vf_ctx = "thread_stats_print_out";
   mi_thread_stats_print_out(chunk_cb, (void*)"stats_print_out");
-  mi_register_output(chunk_cb, (void*)"registered");
   vf_ctx = "stats_print";
   mi_stats_print(NULL);
   vf_ctx = "options_print";
